@@ -1006,6 +1006,30 @@ def flat_values(a):
 
 
 # ============================================================================================ numpy proxy
+class LinalgProxy:
+    """numpy.linalg stand-in: symbolic matrices are handed to the model installed in `hooks` (a harness states the defining
+    equations of the result as assumptions); concrete matrices go to numpy"""
+
+    def __init__(self):
+        self.hooks = {}
+
+    def __getattr__(self, name):
+        real = getattr(_real_np.linalg, name)
+
+        def call(M, *a, **k):
+            arr = np.asarray(M.d if isinstance(M, SSparse) else M, dtype=object)
+            symbolic = any(isinstance(x, (SV, SB, SC)) and sx.is_sym(getattr(x, "v", None)) for x in arr.ravel()) or name in self.hooks
+            if name in self.hooks:
+                return self.hooks[name](M, *a, **k)
+            if symbolic:
+                raise Unsupported(f"numpy.linalg.{name} of a symbolic matrix without a model")
+            return _rewrap(real(np.array([float(unwrap(x)) for x in arr.ravel()], dtype=float).reshape(arr.shape), *a, **k))
+        return call
+
+
+LINALG = LinalgProxy()
+
+
 class NpProxy(types.ModuleType):
     """module-like object: forwards to numpy, intercepting what object arrays cannot do"""
 
@@ -1022,6 +1046,10 @@ class NpProxy(types.ModuleType):
                 return _rewrap(obj(*a, **k))
             return wrapped
         return obj
+
+    @property
+    def linalg(self):
+        return LINALG
 
     # creation: object arrays so that symbolic values can be stored later
     def zeros(self, shape, dtype=float, **kw):
